@@ -60,6 +60,9 @@ def preprocess(t: str) -> str:
     return t
 
 
+_PREV = [None]
+
+
 def check_text(acc, t, inp, accepted_source=False):
     from explorerscript.pygments.expslexer import ExplorerScriptLexer
     from pygments.token import Error
@@ -112,6 +115,31 @@ def check_text(acc, t, inp, accepted_source=False):
                 problems.append(("get_tokens-differs-from-preprocessed-input", {"expected": repr(preprocess(t))[:60], "got": repr(got2)[:60]}))
         except Exception as e:
             problems.append(("raised-get_tokens", {"type": type(e).__name__}))
+    # two lazily consumed token streams of one lexer object (a formatter that zips two files): each stream must give exactly the
+    # tokens it gives when consumed alone
+    if not problems and _PREV[0] is not None and (len(t) + len(_PREV[0])) <= 4000:
+        import itertools
+        prev = _PREV[0]
+        try:
+            lx2 = ExplorerScriptLexer()
+            alone_a, alone_b = list(lx2.get_tokens_unprocessed(prev)), list(lx2.get_tokens_unprocessed(t))
+            ia, ib = [], []
+            for x, y in itertools.zip_longest(lx2.get_tokens_unprocessed(prev), lx2.get_tokens_unprocessed(t)):
+                if x is not None:
+                    ia.append(x)
+                if y is not None:
+                    ib.append(y)
+                if len(ia) + len(ib) > 2 * bound + 4 * len(prev) + 64:
+                    break
+            acc.count("interleaved_stream_pairs")
+            if ia != alone_a or ib != alone_b:
+                which = "first" if ia != alone_a else "second"
+                lost = "".join(v for _, _, v in (ia if which == "first" else ib)) != (prev if which == "first" else t)
+                problems.append(("interleaved-streams-of-one-lexer-differ-from-streams-consumed-alone",
+                                 {"which": which, "text_lost": lost, "other_text": prev[:200]}))
+        except Exception as e:
+            problems.append(("raised-interleaved", {"type": type(e).__name__}))
+    _PREV[0] = t
     if accepted_source and nerr:
         problems.append(("error-token-on-accepted-source", {"errors": nerr}))
     acc.count("tokens_observed", ntok)
